@@ -1,5 +1,5 @@
 """C01 scenarios: TT-SVD accuracy and rank bounds."""
-from .lib import scenario, dense, prod
+from .lib import scenario, dense, prod, abs2sum
 
 DELTA = 1e-9     # relative slack for "up to roundoff"
 
@@ -80,7 +80,7 @@ def ttsvd(E, s):
     entry = s.get('entry', 'torch')
     if s.get('general'):
         # arbitrary sign-free entries (every unfolding of these shapes has a single row or a single column)
-        A = E.nparray('A', shape, 'float64') if entry == 'numpy' else E.tensor('A', shape, 'float64')
+        A = E.nparray('A', shape, s.get('dtype', 'float64')) if entry == 'numpy' else E.tensor('A', shape, s.get('dtype', 'float64'))
         pattern = [tuple(ix) for ix in _all_index(shape)]
     else:
         A = E.pos_tensor('A', shape, pattern, s.get('dtype', 'float64'), 'numpy' if entry == 'numpy' else 'torch')
@@ -138,11 +138,11 @@ def ttsvd(E, s):
     Ad = tn.reshape(E.tn.tensor(A) if entry == 'numpy' else A, target)
     rec = dense(E, T.cores)
     diff = rec - Ad
-    err2 = tn.sum(diff * diff)
-    nrm2 = tn.sum(Ad * Ad)
+    err2 = abs2sum(E, diff)
+    nrm2 = abs2sum(E, Ad)
     maxrank = max([1] + [min(prod(umodes[:k]), prod(umodes[k:])) for k in range(1, d)])
-    ro2 = 1e-26 if s.get('dtype', 'float64') == 'float64' else 4e-12       # (relative roundoff)^2 of the dtype: replay slack only
-    bound_ok = err2.item() <= ((eps * eps) * (1 + DELTA) + ro2) * nrm2.item()
+    ro2 = 1e-26 if s.get('dtype', 'float64') in ('float64', 'complex128') else 4e-12       # (relative roundoff)^2 of the dtype: replay slack only
+    bound_ok = err2 <= ((eps * eps) * (1 + DELTA) + ro2) * nrm2
     if rmax is None:
         E.true('accuracy', bound_ok)
     elif rmax == 'sym':
